@@ -196,6 +196,15 @@ def run_impl(exe, cases, workdir, tag, timeout=1800):
         if len(lines) >= need:
             results.extend(lines[:need])
             break
+        if lines and lines[-1] == "TIMEOUT" and rc == 4:
+            # the driver stopped itself after a case that did not terminate; resume at the next case
+            results.extend(lines)
+            skip = len(results)
+            crashes += 40
+            if crashes > 200:
+                results.extend(["CRASH(giving up)"] * (len(cases) - len(results)))
+                break
+            continue
         # crashed / timed out on case number skip+len(lines)
         results.extend(lines)
         results.append("CRASH(%s)" % ("timeout" if rc == -999 else "signal %d" % (-rc) if rc < 0 else "exit %d" % rc))
